@@ -1,4 +1,5 @@
 import Apko.Proofs.Lemmas.AccountsWalk
+import Apko.Proofs.Lemmas.FSCount
 /-! Home directories made by earlier iterations of the loop are still there, untouched, at the end:
 every step of the loop only *extends* the graph and never changes mode or owner of a node that
 existed before it. -/
@@ -314,5 +315,157 @@ theorem mkdirAll_new (c : Cfg) (fs : FS) (p : Text) (perm : Nat) (hi : FS.Inv fs
   · exact hempty
   · have := mkdirAllLoop_new c (modeDir ||| perm) ((parts p).filter (· ≠ dot)) fs { ino := 0 } [] hi hi.root
     split <;> simp_all
+
+/-- the rest of one iteration of `MkdirAll`'s loop once the component's node `nn` is known -/
+def mkdirAllTail (c : Cfg) (mode : Nat) (rest : List Name) (tr : List Name) (part : Name) (at_ : Pos)
+    (fsk : FS) (nn : Ino) : FS × Option Err :=
+  let r : Except Err Pos :=
+    if (fsk.node nn).isSymlink then
+      resolveFrom c fsk at_.stack (linkDest c (joinNames tr) (fsk.node nn).target)
+    else .ok { ino := nn, stack := nn :: at_.stack }
+  match r with
+  | .error e => (fsk, some e)
+  | .ok p =>
+    if !(fsk.node p.ino).dir then (fsk, some .pathNotDir)
+    else mkdirAllLoop c mode rest fsk p (tr ++ [part])
+
+theorem mkdirAllLoop_cons (c : Cfg) (mode : Nat) (part : Name) (rest : List Name) (fs : FS) (at_ : Pos)
+    (tr : List Name) :
+    mkdirAllLoop c mode (part :: rest) fs at_ tr =
+      match fs.lookup at_.ino part with
+      | some x => mkdirAllTail c mode rest tr part at_ fs x
+      | none => mkdirAllTail c mode rest tr part at_ (fs.create at_.ino part (newDir mode)).1
+                  (fs.create at_.ino part (newDir mode)).2 := by
+  rw [mkdirAllLoop]
+  cases fs.lookup at_.ino part <;> rfl
+
+/-- `MkdirAll`'s loop and the lookup of the same components in the state it leaves walk in lock
+step as long as the lookup meets no symbolic link (its traversal counter does not move): the node
+the lookup ends at is one the loop verified to be a directory. -/
+theorem mkdirAllLoop_lockstep (c : Cfg) (mode : Nat) (r : Option (Text → Nat → Except Err (Ino × Nat)))
+    (fs1 : FS) (hr : ∀ f, r = some f → ∀ t k i k', f t k = .ok (i, k') → CountOK k k') :
+    ∀ (ps : List Name) (fs : FS) (at_ : Pos) (tr : List Name) (cnt : Nat) (n : Ino),
+      FS.Inv fs → (fs.node at_.ino).dir = true →
+      mkdirAllLoop c mode ps fs at_ tr = (fs1, none) →
+      walkImpl fs1 r ps at_.ino tr cnt = .ok (n, cnt) → (fs1.node n).dir = true := by
+  intro ps
+  induction ps with
+  | nil =>
+    intro fs at_ tr cnt n _ hd hm hw
+    simp only [mkdirAllLoop, Prod.mk.injEq, and_true] at hm
+    simp only [walkImpl, Except.ok.injEq, Prod.mk.injEq, and_true] at hw
+    subst hm; subst hw; exact hd
+  | cons part rest ih =>
+    intro fs at_ tr cnt n hi hd hm hw
+    rw [mkdirAllLoop_cons] at hm
+    -- the state and node after the lookup-or-create of this component
+    obtain ⟨fsk, nn, hm, hik, hlk, hefk⟩ : ∃ fsk nn, mkdirAllTail c mode rest tr part at_ fsk nn = (fs1, none) ∧
+        FS.Inv fsk ∧ fsk.lookup at_.ino part = some nn ∧ EF fs fsk := by
+      cases hl : fs.lookup at_.ino part with
+      | some x => rw [hl] at hm; exact ⟨fs, x, hm, hi, hl, EF.refl fs⟩
+      | none =>
+        rw [hl] at hm
+        exact ⟨(fs.create at_.ino part (newDir mode)).1, (fs.create at_.ino part (newDir mode)).2, hm,
+          hi.create _ _ _ hd rfl, lookup_create fs _ _ _ hd, ef_create hi _ _ _ hd hl⟩
+    unfold mkdirAllTail at hm
+    simp only [] at hm
+    have hdk : (fsk.node at_.ino).dir = true := hefk.ext.dir _ hd
+    by_cases hsym : (fsk.node nn).isSymlink = true
+    · -- the lookup in the final state would traverse this link and move its counter
+      exfalso
+      simp only [hsym, if_true] at hm
+      cases hres : resolveFrom c fsk at_.stack (linkDest c (joinNames tr) (fsk.node nn).target) with
+      | error e => simp [hres] at hm
+      | ok p =>
+        simp only [hres] at hm
+        by_cases hpd : (fsk.node p.ino).dir = true
+        · simp only [hpd, Bool.not_true, Bool.false_eq_true, if_false] at hm
+          have hef1 := mkdirAllLoop_ef c mode rest fsk p (tr ++ [part]) hik hpd
+          rw [hm] at hef1
+          have hl1 := hef1.ext.look _ _ _ hdk hlk
+          have hs1 := (hef1.ext.sym _ _ _ hdk hlk).1
+          unfold walkImpl at hw
+          simp only [hef1.ext.dir _ hdk, Bool.not_true, Bool.false_eq_true, if_false, hl1, hs1, hsym, if_true] at hw
+          by_cases hc' : cnt + 1 > maxLinks
+          · simp [hc'] at hw
+          · simp only [hc', if_false] at hw
+            cases r with
+            | none => simp at hw
+            | some f =>
+              simp only [] at hw
+              split at hw
+              · cases hw
+              · rename_i tn cnt' hf
+                have c1 := hr f rfl _ _ _ _ hf
+                have c2 := walkImpl_count fs1 (some f) hr _ _ _ _ _ _ hw
+                unfold CountOK at c1 c2
+                omega
+        · simp [hpd] at hm
+    · simp only [hsym, Bool.false_eq_true, if_false] at hm
+      by_cases hnd : (fsk.node nn).dir = true
+      · simp only [hnd, Bool.not_true, Bool.false_eq_true, if_false] at hm
+        have hef1 := mkdirAllLoop_ef c mode rest fsk { ino := nn, stack := nn :: at_.stack } (tr ++ [part]) hik hnd
+        rw [hm] at hef1
+        have hl1 := hef1.ext.look _ _ _ hdk hlk
+        have hs1 := (hef1.ext.sym _ _ _ hdk hlk).1
+        unfold walkImpl at hw
+        simp only [hef1.ext.dir _ hdk, Bool.not_true, Bool.false_eq_true, if_false, hl1, hs1, hsym] at hw
+        exact ih fsk { ino := nn, stack := nn :: at_.stack } (tr ++ [part]) cnt n hik hnd hm hw
+      · simp [hnd] at hm
+
+theorem shape_chmod (c : Cfg) (fs : FS) (p : Text) (pm : Nat) (hpm : pm.testBit 27 = false) :
+    ShapeEq fs (act c fs (.chmod p pm)).1 := by
+  simp only [act, step]
+  cases hg : getNode c fs p with
+  | error e => exact ShapeEq.refl fs
+  | ok i =>
+    exact ShapeEq.modify fs i (fun n => { n with mode := typeKeep n.mode pm }) (by intro n; rfl) (by intro n; rfl)
+      (by simp [Inode.isSymlink, typeKeep_bit27 _ _ hpm]) (by intro n; rfl)
+
+theorem shape_chown (c : Cfg) (fs : FS) (p : Text) (uid gid : Int) :
+    ShapeEq fs (act c fs (.chown p uid gid)).1 := by
+  simp only [act, step]
+  cases hg : getNode c fs p with
+  | error e => exact ShapeEq.refl fs
+  | ok i =>
+    exact ShapeEq.modify fs i (fun n => { n with uid := uid, gid := gid }) (by intro n; rfl) (by intro n; rfl) rfl
+      (by intro n; rfl)
+
+/-- `mutatePermissionsDirect` never changes the shape of the graph, whatever its outcome -/
+theorem shape_mpd (c : Cfg) (fs : FS) (p : Text) (perms uid gid : Nat) :
+    ShapeEq fs (mutatePermissionsDirect c fs p perms uid gid).1 := by
+  unfold mutatePermissionsDirect
+  have h1 := shape_chmod c fs p (permMode perms) (permMode_bit27 perms)
+  generalize act c fs (.chmod p (permMode perms)) = r1 at h1
+  rcases r1 with ⟨f1, _ | e⟩
+  · exact ShapeEq.trans h1 (shape_chown c f1 p uid gid)
+  · exact h1
+
+/-- after a successful `MkdirAll(p, perm)`, a lookup of `p` that meets no symbolic link ends at a
+directory -/
+theorem mkdirAll_plain_dir (c : Cfg) (fs fsA : FS) (p : Text) (perm : Nat) (hi : FS.Inv fs)
+    (h : act c fs (.mkdirAll p perm) = (fsA, none))
+    (hnodot : (parts p).filter (· ≠ dot) = parts p)
+    (i : Ino) (hplain : getNodeD fsA (maxLinks + 1) p 0 = .ok (i, 0)) : (fsA.node i).dir = true := by
+  have hiA : FS.Inv fsA := by have := mkdirAll_inv c fs p perm hi; simp only [act, step, Prod.mk.injEq] at h; rw [h.1] at this; exact this
+  by_cases hsd : p = slash ∨ p = dot
+  · unfold getNodeD at hplain
+    simp only [hsd, if_true, Except.ok.injEq, Prod.mk.injEq, and_true] at hplain
+    subst hplain; exact hiA.root
+  · have hd : p ≠ dot := fun h => hsd (Or.inr h)
+    rw [getNodeD_eq_walk _ _ _ _ hd] at hplain
+    simp only [act, step, mkdirAll, hnodot] at h
+    by_cases hdd : hasDotDot (parts p) = true
+    · simp [hdd, errOf] at h
+    · simp only [hdd, Bool.false_eq_true, if_false] at h
+      cases hm : mkdirAllLoop c (modeDir ||| perm) (parts p) fs { ino := 0 } [] with
+      | mk f e =>
+        cases e with
+        | some e => simp [hm, errOf] at h
+        | none =>
+          simp only [hm, errOf, Prod.mk.injEq, and_true] at h
+          subst h
+          exact mkdirAllLoop_lockstep c _ _ f (by intro g hg; cases hg; exact getNodeD_count f maxLinks)
+            (parts p) fs { ino := 0 } [] 0 i hi hi.root hm hplain
 
 end Apko.Accounts
